@@ -133,6 +133,20 @@ Theorem C04_request_position_persisted : forall fuel rs c p input p' resp,
         /\ nav_fold nav_code (pos_of (fst (start_snap c p))) (log_moves new) = Some (pos_of st')).
 Proof. exact request_persisted_reach. Qed.
 
+(* whole histories: ANY list of inputs on a long-lived engine, and from a new engine without a stored
+   session (the trace then starts at the empty position) *)
+Theorem C04_history_position : forall inputs fuel rs c e,
+  c_first c = None -> c_frames (v_ca (e_v e)) <> [] ->
+  pos_reach (e_v e) (e_v (long_history fuel rs c e inputs)).
+Proof. exact long_history_reach. Qed.
+
+Theorem C04_history_position_fresh : forall inputs fuel rs c w lg,
+  c_first c = None ->
+  let e := long_history fuel rs c (new_engine c None w lg) inputs in
+  exists new tr, v_log (e_v e) = new ++ lg /\ trace_moves tr = log_moves new
+    /\ pos_trace ([], 0) tr = Some (pos_of (v_st (e_v e))).
+Proof. exact long_history_fresh. Qed.
+
 (* the entry function is outside the table: no move logged, page index reset to 0 *)
 Theorem C04_first_outside_table :
   exists c e, c_first c <> None /\
@@ -142,8 +156,8 @@ Theorem C04_first_outside_table :
 Proof. exact first_resets_index_example. Qed.
 
 (* ---- non-vacuity ------------------------------------------------------------------------------------ *)
-(* a run with three kinds of move: INCMP foo fires, foo's code is fetched ... on ex_app every node
-   is HALT, so use a block: INCMP bar 1 from root, then the logged moves are root (MOVE), bar (INCMP) *)
+(* a run from root's HALT with the block INCMP bar 1 and input "1": one move is logged (bar, by INCMP)
+   and the position is the table's; the cache hypothesis holds *)
 Example C04_run_nonvacuous :
   let v := ex_vm 0 (s2b "1") in
   c_frames (v_ca v) <> [] /\
@@ -198,4 +212,6 @@ Print Assumptions C04_flush_position.
 Print Assumptions C04_exec_position.
 Print Assumptions C04_request_position.
 Print Assumptions C04_request_position_persisted.
+Print Assumptions C04_history_position.
+Print Assumptions C04_history_position_fresh.
 Print Assumptions C04_first_outside_table.
